@@ -312,7 +312,7 @@ def mutate_cfg(text, rnd):
     """One seeded syntactic mutation of a configuration text. -> (kind, new text)"""
     kind = rnd.choice(["attr-delete", "attr-dup", "attr-value", "attr-rename", "elem-rename-open", "elem-rename-both",
                        "truncate", "line-delete", "line-dup", "line-swap", "number", "text", "bytes", "elem-unclose",
-                       "attr-value", "number", "text", "elem-rename-both", "attr-delete", "splice"])
+                       "attr-value", "number", "text", "elem-rename-both", "attr-delete", "splice", "text-empty", "text-empty", "elem-empty"])
     attrs = _attr_positions(text)
     lines = text.split("\n")
     if kind == "attr-delete" and attrs:
@@ -364,6 +364,20 @@ def mutate_cfg(text, rnd):
         if nums:
             m = rnd.choice(nums)
             return kind, text[:m.start()] + rnd.choice(["", "-", "99999999999999999999999", "-0", "1e9999", "0x10", "1.2.3", "1:2:3", "٣", "+1", "1-", " "]) + text[m.end():]
+    if kind == "text-empty":
+        # <x ...>some text</x>  ->  <x .../>
+        texts = list(re.finditer(r"<([A-Za-z][\w-]*)((?:\s[^<>]*)?)>([^<>]*)</\1>", text))
+        if texts:
+            m = rnd.choice(texts)
+            return kind, text[:m.start()] + "<%s%s/>" % (m.group(1), m.group(2)) + text[m.end():]
+    if kind == "elem-empty":
+        # an element with children loses all of them
+        opens = list(re.finditer(r"<([A-Za-z][\w-]*)((?:\s[^<>/]*)?)>", text))
+        if opens:
+            m = rnd.choice(opens)
+            e = text.find("</%s>" % m.group(1), m.end())
+            if e > 0 and e - m.end() < 4000:
+                return kind, text[:m.start()] + "<%s%s/>" % (m.group(1), m.group(2)) + text[e + len(m.group(1)) + 3:]
     if kind == "text":
         texts = list(re.finditer(r">([^<>\n]+)<", text))
         if texts:
